@@ -17,6 +17,9 @@ everything else to pipegen):
         a trained side branch: a stateful worker trained on the train / label tails; the trunk is returned as it is
     ['api', 'tee', tag]
         an untrained side branch (sink) subscribed to the tail of the train segment; the trunk is returned as it is
+    ['api', 'branch', split_tag, szout, [[arm_tag, output_port], ...], merge_tag]
+        a MULTI-OUTPUT worker: splitter 1 -> szout, one stateless arm per listed output port of the splitter, a k:1 merger;
+        on the apply and the train path. Not in the Lean expansion model (evaluated against the oracle and the copy check only)
 
 Hand-written denotations: `denote_api` (used by the oracle in c03.py); Lean twin: `Compose.ApiOp` / `denoteApi`.
 """
@@ -96,7 +99,28 @@ def _classes():
             flow.Worker(self._builder, 1, 1)[0].subscribe(left.train.publisher)
             return left
 
+    class Branch(flow.Operator):
+        """split (1 -> n outputs) -> one 1:1 arm per chosen OUTPUT PORT of the splitter -> merge (k -> 1), put on the apply
+        and on the train path (fresh workers per mode): subscriptions published from output ports > 0."""
+
+        def __init__(self, splitter, szout, arms, merger):
+            self._splitter, self._szout, self._arms, self._merger = splitter, szout, arms, merger
+
+        def compose(self, scope):
+            def mode(segment):
+                split = flow.Worker(self._splitter, 1, self._szout)
+                merge = flow.Worker(self._merger, len(self._arms), 1)
+                for i, (builder, out) in enumerate(self._arms):
+                    arm = flow.Worker(builder, 1, 1)
+                    arm[0].subscribe(split[out])
+                    merge[i].subscribe(arm[0])
+                return segment.extend(flow.Segment(split, merge))
+
+            left = scope.expand()
+            return left.use(apply=mode(left.apply), train=mode(left.train))
+
     pg._CACHE['c03api'] = (Extend, LabelMix, Monitor, Tee)  # pylint: disable=protected-access
+    pg._CACHE['c03branch'] = Branch  # pylint: disable=protected-access
     return pg._CACHE['c03api']  # pylint: disable=protected-access
 
 
@@ -112,6 +136,11 @@ def _build_api(ast):
         return Monitor(pg.actor_builder(ast[2]))
     if form == 'tee':
         return Tee(pg.actor_builder([ast[2], False]))
+    if form == 'branch':
+        _, _, split, szout, arms, merge = ast
+        return pg._CACHE['c03branch'](  # pylint: disable=protected-access
+            pg.actor_builder([split, False], szout=int(szout)), int(szout),
+            [(pg.actor_builder([t, False]), int(o)) for t, o in arms], pg.actor_builder([merge, False]))
     raise ValueError(f'unknown api operator {form!r}')
 
 
@@ -166,6 +195,10 @@ def retag(ast, counter=None):
             return ['api', 'extend'] + [NONE if t == NONE else next(counter) for t in ast[2:5]] + [ast[5]]
         if form == 'monitor':
             return ['api', 'monitor', [next(counter), bool(ast[2][1])]]
+        if form == 'branch':
+            split = next(counter)
+            arms = [[next(counter), int(o)] for _, o in ast[4]]
+            return ['api', 'branch', split, int(ast[3]), arms, next(counter)]
         return ['api', form, next(counter)]
     if k == 'seq':
         left = retag(ast[1], counter)
@@ -209,6 +242,8 @@ def shape(ast) -> str:
         form = ast[1]
         if form == 'extend':
             return 'x' + ('u' if ast[5] == 'true' else 'e') + '[' + ''.join('-' if t == NONE else c for t, c in zip(ast[2:5], 'atl')) + ']'
+        if form == 'branch':
+            return f'br{ast[3]}[' + ''.join(str(o) for _, o in ast[4]) + ']'
         return {'labelmix': 'lmix', 'monitor': 'mon', 'tee': 'tee'}[form]
     if k == 'seq':
         return f'({shape(ast[1])}>{shape(ast[2])})'
@@ -221,7 +256,7 @@ def maps_train(ast) -> bool:
     """Some worker is put on the train path."""
     k = ast[0]
     if k == 'api':
-        return ast[1] == 'extend' and ast[3] != NONE
+        return ast[1] == 'branch' or (ast[1] == 'extend' and ast[3] != NONE)
     if k == 'seq':
         return maps_train(ast[1]) or maps_train(ast[2])
     if k == 'wrap':
@@ -262,6 +297,17 @@ def denote_api(ast, scope, Sem):
         return monitor
     if form == 'tee':
         return scope
+    if form == 'branch':
+        _, _, split, _, arms, merge = ast
+
+        def through(x):
+            return fn(merge, *(fn(t, ('proj', int(o), fn(split, x))) for t, o in arms))
+
+        def branch(xa, xt, xl):
+            s = scope(xa, xt, xl)
+            return Sem(through(s.apply), through(s.train), s.label, s.states)
+
+        return branch
     raise ValueError(form)
 
 
@@ -275,3 +321,23 @@ def api_leaves() -> list:
                 out.append(['api', 'extend'] + [0 if m else NONE for m in mask] + [via])
     out += [['api', 'labelmix', 0], ['api', 'monitor', [0, True]], ['api', 'tee', 0]]
     return out
+
+
+def has_branch(ast) -> bool:
+    k = ast[0]
+    if k == 'api':
+        return ast[1] == 'branch'
+    if k == 'seq':
+        return has_branch(ast[1]) or has_branch(ast[2])
+    if k == 'stack':
+        return any(has_branch(b) for b in ast[1])
+    return False
+
+
+def branch_leaf(rng) -> list:
+    """A multi-output operator: splitter with 2-4 output ports, 1-3 arms on random output ports (at least one > 0)."""
+    szout = rng.choice([2, 2, 3, 4])
+    arms = [[0, rng.randrange(szout)] for _ in range(rng.choice([1, 2, 2, 3]))]
+    if all(o == 0 for _, o in arms):
+        arms[rng.randrange(len(arms))][1] = rng.randrange(1, szout)
+    return ['api', 'branch', 0, szout, arms, 0]
